@@ -15,7 +15,7 @@ from mc import driver as D
 PROP = 'C04'
 RULE = ('explicit-state exploration of the real Executor: ALL sequences of d set_cells batches (d=3 quick, 4 thorough) over '
         'the batch alphabet (single cell / two cells / the same cell twice with different values; targets: constant, '
-        'formula, failing formula =1/0, blank inside the used range, referenced cell beyond it, unreferenced cell beyond it, '
+        'formula, pass-through formula (=A1, cross-sheet as well) with readers behind it, failing formula =1/0, blank inside the used range, referenced cell beyond it, unreferenced cell beyond it, '
         'cell below the used range but inside an area some formula folds, '
         'cell on sheet 2; numeric and A1+title addressing), every cell queried after every step; oracle = whole-workbook '
         're-translation of the edited workbook.  Plus the depth-2 exploration under each PYTHONHASHSEED in a separate process. '
@@ -26,15 +26,18 @@ ASSUMPTIONS = ['None is not an override value (the statement speaks of supplied 
 BASE = [('S', {'A1': 10, 'B1': '=A1*2', 'C1': '=B1+A1', 'D1': '=1/0', 'E1': '=D1+1', 'F1': '=H9+1', 'B2': 3,
                'C2': '=SUM(A1:A2)', 'D2': '=A2&"|"', 'AB1': 4, 'E2': '=AB1*3',
                # areas that reach beyond the used range of their sheet: an override out there belongs to them as well
-               'G1': '=SUM(A1:A6)+10*COUNT(A4:B7)', 'G2': "=SUM('T 2'!A1:B6)"}),
+               'G1': '=SUM(A1:A6)+10*COUNT(A4:B7)', 'G2': "=SUM('T 2'!A1:B6)",
+               # pass-through cells (a formula that is one bare reference) with readers behind them
+               'I1': '=A1', 'I2': '=I1+1', 'I3': "='T 2'!A1", 'I4': '=SUM(I1:I3)', 'I5': '=IF(I3>5,"big","small")'}),
         ('T 2', {'A1': 7, 'B1': '=S!A1+A1', 'C1': "=S!D1", 'D1': '=SUM(A2:B5)'})]
 # target name -> (title, col, row)
 TARGETS = {'const': ('S', 'A', 1), 'formula': ('S', 'B', 1), 'failing': ('S', 'D', 1), 'blank': ('S', 'A', 2),
            'beyond_ref': ('S', 'H', 9), 'wide': ('S', 'AB', 1), 'beyond': ('S', 'J', 12), 'sheet2': ('T 2', 'A', 1),
-           'below_in_area': ('S', 'A', 5), 'below_in_area2': ('T 2', 'B', 4)}
+           'below_in_area': ('S', 'A', 5), 'below_in_area2': ('T 2', 'B', 4), 'forward': ('S', 'I', 1), 'forward_x': ('S', 'I', 3)}
 TITLE_IDX = {'S': 0, 'T 2': 1}
 QUERY = [('S', c, r) for c, r in [('A', 1), ('B', 1), ('C', 1), ('D', 1), ('E', 1), ('F', 1), ('A', 2), ('B', 2), ('C', 2),
-                                  ('D', 2), ('H', 9), ('J', 12), ('AB', 1), ('E', 2), ('G', 1), ('G', 2), ('A', 5)]] + \
+                                  ('D', 2), ('H', 9), ('J', 12), ('AB', 1), ('E', 2), ('G', 1), ('G', 2), ('A', 5), ('I', 1), ('I', 2), ('I', 3),
+                                  ('I', 4), ('I', 5)]] + \
     [('T 2', 'A', 1), ('T 2', 'B', 1), ('T 2', 'C', 1), ('T 2', 'D', 1), ('T 2', 'B', 4)]
 
 
@@ -77,7 +80,7 @@ def _core():
         if len(b) == 1:
             t, v, how = b[0]
             if (t in ('const', 'formula', 'failing') and v in (1, 0, True) and not (t == 'failing' and v == 1 and False)) \
-                    or (t in ('blank', 'beyond_ref', 'sheet2', 'wide', 'below_in_area', 'below_in_area2') and v == 2) \
+                    or (t in ('blank', 'beyond_ref', 'sheet2', 'wide', 'below_in_area', 'below_in_area2', 'forward', 'forward_x') and v == 2) \
                     or (t == 'beyond' and v == 1):
                 keep.append(i)
         elif len({t for t, _, _ in b}) < len(b) or b[0][0] == 'failing':
